@@ -146,8 +146,8 @@ Definition par_run (c : par_case) : par_obs :=
   let tasks := map (fun id => (id, task_steps e (q_heap c) id)) (q_batch c) in
   let '(ok, full, rem) := expand tasks (q_trace c) [] in
   let complete := forallb (fun p => match snd p with [] => true | _ => false end) rem in
-  let ps := run fltb 0%float fround7 fsmul e full (lift (init_of c)) in
-  let '(sst, r) := evaluate_serial fltb 0%float fround7 fsmul e (init_of c) (q_batch c) in
+  let ps := run fltb 0%float froundp fsmul e full (lift (init_of c)) in
+  let '(sst, r) := evaluate_serial fltb 0%float froundp fsmul e (init_of c) (q_batch c) in
   let po := side_of (p_st ps) in
   let so := side_of sst in
   (ok && complete, po, r, so, side_eqb false po so).
